@@ -180,10 +180,18 @@ class Run:
             for s in specs:
                 self.merge(_worker((modname, s)))
         else:
+            import concurrent.futures as cf
             ctx = multiprocessing.get_context('fork')
-            with ctx.Pool(min(jobs, len(specs))) as pool:
-                for r in pool.imap(_worker, [(modname, s) for s in specs], chunksize=1):
-                    self.merge(r)
+            with cf.ProcessPoolExecutor(min(jobs, len(specs)), mp_context=ctx) as pool:
+                futs = [pool.submit(_worker, (modname, s)) for s in specs]
+                for s, f in zip(specs, futs):      # merged in shard order: output does not depend on timing
+                    try:
+                        self.merge(f.result())
+                    except cf.process.BrokenProcessPool:
+                        self.internal_errors.append(f'a worker process died while shard {s!r} was pending')
+                        break
+                    except Exception:
+                        self.internal_errors.append(f'shard {s!r}: ' + traceback.format_exc())
         post = getattr(self.mod, 'post', None)
         if post:
             post(self)
